@@ -21,6 +21,42 @@ from vcore.tlaval import parse_dump, rat
 HL2P = 0.5 * math.log(2 * math.pi)
 
 
+def mog_sigma_fails(torch, dd):
+    """One mixture component: feature D is N(mu, sigma) given the others.  The density's mu and sigma are read
+    off its gradient / curvature in x_D; the sampler under the constant stream z = 1 must return mu + sigma
+    (also for narrow components and a non-default floor).  Returns failure messages."""
+    import copy as _copy
+
+    from nflows.nn.nde.made import MixtureOfGaussiansMADE
+
+    msgs = []
+    for narrow, eps_ in ((None, 1e-2), (-6.0, 1e-2), (None, 0.5)):
+        torch.manual_seed(7 + dd)
+        net = MixtureOfGaussiansMADE(features=dd, hidden_features=8, context_features=None, num_blocks=1, num_mixture_components=1, epsilon=eps_)
+        if narrow is not None:
+            with torch.no_grad():
+                net.final_layer.bias[2::3] = narrow
+                net.final_layer.weight[2::3] *= 0.0
+        net.eval()
+        orig_r = torch.randn
+        torch.randn = lambda *size, **kw: torch.ones(*size)
+        try:
+            xs = net.sample(2)
+        finally:
+            torch.randn = orig_r
+        xq = xs.clone().double().requires_grad_(True)
+        netd = _copy.deepcopy(net).double()
+        lp = netd.log_prob(xq).sum()
+        (g1,) = torch.autograd.grad(lp, xq, create_graph=True)
+        g2 = torch.autograd.grad(g1[:, dd - 1].sum(), xq)[0][:, dd - 1]
+        sig = (-1.0 / g2).sqrt()
+        mu = xq[:, dd - 1].detach() + sig ** 2 * g1[:, dd - 1].detach()
+        err = float((xs[:, dd - 1].double() - (mu + sig)).abs().max() / sig.min())
+        if not err < 1e-3:
+            msgs.append("MixtureOfGaussiansMADE(features=%d, 1 component, epsilon=%g%s): under the stream z = 1 the sampler returns mu + %.4g sigma of the density's component (density sigma %.4g)" % (dd, eps_, ", narrow component" if narrow else "", 1.0 + float(((xs[:, dd - 1].double() - mu - sig) / sig)[0]), float(sig[0])))
+    return msgs
+
+
 def case_task(states):
     warnings.filterwarnings("ignore")
     import torch
@@ -191,6 +227,32 @@ def case_task(states):
                 got = torchutils.gaussian_kde_log_eval(smp, q[:, None, :])
                 if not torch.allclose(got, ref, atol=1e-9):
                     fail("density", "gaussian_kde_log_eval (%d centres, %d dims): %s vs the mixture of %d-unit Gaussians %s" % (n, dd, got.tolist(), dd, ref.tolist()))
+            elif cls == "MoG3":
+                k, arch, draw = int(par["k"]), str(par["arch"]), int(par["draw"])
+                torch.manual_seed(100 * draw + k)      # the random masks are drawn from the global generator
+                m = MADEMoG(3, 12, None, num_blocks=2, num_mixture_components=k, use_residual_blocks=(arch == "residual"), random_mask=(arch == "feedforward_random")).double()
+                g = torch.Generator().manual_seed(5 + draw)
+                with torch.no_grad():
+                    for p_ in m.parameters():
+                        p_.add_(0.15 * torch.randn(p_.shape, generator=g, dtype=torch.float64))
+                m.eval()
+                # product trapezoid rule with step 0.1 on [-9, 9]^3, and the same with step 0.2 (every second node):
+                # for components wider than the step both are exact to many digits; if they disagree the density is
+                # too narrow somewhere for this grid and there is no verdict
+                ax = torch.linspace(-9.0, 9.0, 181, dtype=torch.float64)
+                fine = coarse = 0.0
+                with torch.no_grad():
+                    gy, gz = torch.meshgrid(ax, ax, indexing="ij")
+                    for i0, x0 in enumerate(ax):
+                        q = torch.stack([x0.expand_as(gy), gy, gz], dim=-1).reshape(-1, 3)
+                        dens = torch.exp(m.log_prob(q)).reshape(181, 181)
+                        fine += float(dens.sum()) * 0.1 ** 3
+                        if i0 % 2 == 0:
+                            coarse += float(dens[::2, ::2].sum()) * 0.2 ** 3
+                if abs(fine - coarse) > 2e-4:
+                    out["skipped"] = out.get("skipped", 0) + 1
+                elif abs(fine - 1.0) > 2e-3:
+                    fail("not_normalised", "MADEMoG(features=3, components=%d, %s blocks, mask draw %d): exp(log_prob) integrates to %.6f over R^3" % (k, arch, draw, fine))
             elif cls == "MoG":
                 dd, k, rows = int(par["d"]), int(par["k"]), int(par["rows"])
                 torch.manual_seed(dd * 10 + k)
@@ -239,37 +301,8 @@ def case_task(states):
                                 fail("sampler", "MADEMoG(features=%d, components=%d): feature %d is sampled with component probabilities %s, the density's mixture weights are %s" % (dd, k, f_, seen[f_][0].tolist(), want[0, f_].tolist()))
                                 break
                 if k == 1:
-                    # one component: feature D is N(mu, sigma) given the others.  The density's mu and sigma
-                    # are read off its gradient / curvature in x_D; the sampler under the constant stream
-                    # z = 1 must return mu + sigma (also for narrow components and a non-default floor)
-                    from nflows.nn.nde.made import MixtureOfGaussiansMADE
-
-                    for narrow, eps_ in ((None, 1e-2), (-6.0, 1e-2), (None, 0.5)):
-                        torch.manual_seed(7 + dd)
-                        net = MixtureOfGaussiansMADE(features=dd, hidden_features=8, context_features=None, num_blocks=1, num_mixture_components=1, epsilon=eps_)
-                        if narrow is not None:
-                            with torch.no_grad():
-                                net.final_layer.bias[2::3] = narrow
-                                net.final_layer.weight[2::3] *= 0.0
-                        net.eval()
-                        orig_r = torch.randn
-                        torch.randn = lambda *size, **kw: torch.ones(*size)
-                        try:
-                            xs = net.sample(2)
-                        finally:
-                            torch.randn = orig_r
-                        xq = xs.clone().double().requires_grad_(True)
-                        import copy as _copy
-
-                        netd = _copy.deepcopy(net).double()
-                        lp = netd.log_prob(xq).sum()
-                        (g1,) = torch.autograd.grad(lp, xq, create_graph=True)
-                        g2 = torch.autograd.grad(g1[:, dd - 1].sum(), xq)[0][:, dd - 1]
-                        sig = (-1.0 / g2).sqrt()
-                        mu = xq[:, dd - 1].detach() + sig ** 2 * g1[:, dd - 1].detach()
-                        err = float((xs[:, dd - 1].double() - (mu + sig)).abs().max() / sig.min())
-                        if not err < 1e-3:
-                            fail("sampler", "MixtureOfGaussiansMADE(features=%d, 1 component, epsilon=%g%s): under the stream z = 1 the sampler returns mu + %.4g sigma of the density's component (density sigma %.4g)" % (dd, eps_, ", narrow component" if narrow else "", 1.0 + float(((xs[:, dd - 1].double() - mu - sig) / sig)[0]), float(sig[0])))
+                    for msg in mog_sigma_fails(torch, dd):
+                        fail("sampler", msg)
                 for r in range(max(rows, 1)):
                     c = ctxs[r : r + 1] if rows else None
                     f = (lambda q: m.log_prob(q, c.expand(q.shape[0], -1))) if rows else (lambda q: m.log_prob(q))
